@@ -12,7 +12,7 @@ import c16
 PROPERTY = 'C02'
 MANIFEST = {
  'level_text': 'Lean 4 theorems, kernel-checked, about a model of every command through which IRC users change accounts, capabilities, channel capabilities, ignores and default capabilities (register, unregister, changename, identify, unidentify, hostmask add/remove, set password/secure, admin capability add/remove, channel capability add/remove/set/unset/setdefault, channel enable/disable, admin ignore add/remove, owner defaultcapability, config supybot.capabilities) with arguments ranging over all strings, composed with the proved model of the database files (C16) and with explicit events for everything that writes or reads them: flush+reload, a reload that reads the files as they are (SIGHUP, config reload), world.flush, the periodic upkeep with supybot.flush on or off, and the order in which Python wrote the capability sets. Proved: a step - a private message or one sent in a channel - never enlarges the owner set and changes anything only if the command gate let the sender pass (admin_gate: never a sender to whom -admin applies); a capability appears on an account only through a capability-add command whose guard held for the caller, and then it is the capability named; a reload of either kind never enlarges any capability set; by induction, over every finite history of all these events - commands acknowledged or failing half-way, loads completing or stopping at any record - the owners stay among the initial ones (history_owner_safe_ev), and under the stated run condition the saved file never holds a capability memory has dropped (history_safe_all_ev) and every capability held at the end was held at the beginning or was granted at some point of the history by a sender for whom the guard of the add command held and whom the command gate let pass (history_caps_entitled); the channels file never differs from the channels in memory as long as channel loads complete (history_chanAgree_ev: every command saves what it changes - true since repair 92c8e54, which this invariant led to). The model is tied to /repo by a differential run against a live bot (full state compared after every event, the saved files compared with the model\'s at every reload) that also evaluates the property statement on the implementation.',
- 'level_note': 'Trusted: Lean kernel; axioms propext/Classical.choice/Quot.sound only; this harness (generators bound what the correspondence sees); C03.Model for capability decisions and C16.Model for the file format (each with its own correspondence check); harness/extractors/capsites.py and wrapspecs.py (the 18 capability-mutation call sites and the wrap() converter lists of the 21 modelled commands, regenerated from the source and matched against Cmd at build time). Modelled: bodies and converters of the listed commands with every argument explicit, sent privately or in a channel (channel-qualified command gate with the channel\'s defaultAllow, the private converter, the op converter taking the channel from the message), ignores, setUser (incl. hostmaskPatternsIntersect)/newUser/delUser with the in-place mutation that survives a refused setUser, IrcUser.addAuth/clearAuth (timeoutIdentification 0), the saved users/channels/ignores files as records, IrcUserCreator.u / IrcChannelCreator.name carried from a stopped load into the next. Parameters: saltHash (a line-safe stand-in), the written order of capability sets (environment event, accepted only as a permutation, checked in Lean). Run condition of history_safe_all_ev only (not of history_owner_safe_ev): a capability-changing command that is not acknowledged left the state alone; the harness reports whether the implementation met it. Not modelled: the tokenizer (arguments are arbitrary strings; C13), how a channel message is recognised as addressed to the bot and nested commands (C01/C14), caches (C04), gpg, commands of owners, conf.supybot.databases.* (they choose file names, not when files are written).',
+ 'level_note': 'Trusted: Lean kernel; axioms propext/Classical.choice/Quot.sound only; this harness (generators bound what the correspondence sees); C03.Model for capability decisions and C16.Model for the file format (each with its own correspondence check); harness/extractors/capsites.py and wrapspecs.py (the 18 capability-mutation call sites and the wrap() converter lists of the 21 modelled commands, regenerated from the source and matched against Cmd at build time). Modelled: bodies and converters of the listed commands with every argument explicit, sent privately or in a channel (channel-qualified command gate with the channel\'s defaultAllow, the private converter, the op converter taking the channel from the message), ignores, setUser (incl. hostmaskPatternsIntersect)/newUser/delUser with the in-place mutation that survives a refused setUser, IrcUser.addAuth/clearAuth, timeoutIdentification 0 or non-zero with the clock jumping past it (Ev.expire: all logins made so far are gone), the saved users/channels/ignores files as records, IrcUserCreator.u / IrcChannelCreator.name carried from a stopped load into the next. Parameters: saltHash (a line-safe stand-in), the written order of capability sets (environment event, accepted only as a permutation, checked in Lean). Run condition of history_safe_all_ev only (not of history_owner_safe_ev): a capability-changing command that is not acknowledged left the state alone; the harness reports whether the implementation met it. Not modelled: the tokenizer (arguments are arbitrary strings; C13), how a channel message is recognised as addressed to the bot and nested commands (C01/C14), caches (C04), gpg, commands of owners, conf.supybot.databases.* (they choose file names, not when files are written).',
  'technique': 'Lean 4 proof (case analysis over commands, invariant over histories, reader-machine invariant for reload) + differential correspondence against a live bot',
  'design_ref': 'DESIGN.md §6 C02',
 }
